@@ -56,6 +56,86 @@ def _run_isolated(mod, prog, res):
         traceback.print_exc()
 
 
+RESTRUCTURED = 18
+
+
+def _restructure_gate(prog, res):
+  """The matchers of the rules were confirmed on the reference shape of each
+  function (tflsa/inventory.json).  A report located in a function whose
+  normal form differs from that shape by more than RESTRUCTURED statements
+  (after helper inlining and substitution of new locals), or in a function
+  the reference does not know, says more about the matcher than about the
+  code: it is turned into an analysis error (exit 2, 'restructured') instead
+  of a VIOLATION.  Realistic one-site regressions change a handful of
+  statements (max 16 over the 120 stored seeded changes); whole-function
+  rewrites are where every false report of the refactoring corpus came
+  from."""
+  import ast
+  import re
+  from tflsa import inline
+  line_maps = {}
+
+  def functions_at(relpath, line):
+    mod = None
+    for m in prog.modules.values():
+      if m.relpath == relpath:
+        mod = m
+    if mod is None:
+      return None, []
+    if relpath not in line_maps:
+      spans = []
+      tree = ast.parse(mod.src)
+      for st in tree.body:
+        if isinstance(st, ast.FunctionDef):
+          spans.append((st.lineno, st.end_lineno, st.name, None))
+        elif isinstance(st, ast.ClassDef):
+          spans.append((st.lineno, st.end_lineno, None, st.name))
+          for m_ in st.body:
+            if isinstance(m_, ast.FunctionDef):
+              spans.append((m_.lineno, m_.end_lineno,
+                            '%s.%s' % (st.name, m_.name), st.name))
+      line_maps[relpath] = spans
+    hits = [sp for sp in line_maps[relpath] if sp[0] <= line <= sp[1]]
+    names = [sp[2] for sp in hits if sp[2]]
+    if not names and hits:
+      # a class-level location: every method of the class
+      cls = hits[0][3]
+      names = [sp[2] for sp in line_maps[relpath]
+               if sp[2] and sp[3] == cls]
+    return mod, names
+
+  for o in res.obligations:
+    if o.status != 'violation':
+      continue
+    m = re.match(r'(.*\.py):(\d+)$', str(o.loc))
+    if not m:
+      continue
+    mod, names = functions_at(m.group(1), int(m.group(2)))
+    if mod is None or not names:
+      continue
+    table = inline.function_table(mod.tree)
+    worst = 0
+    unknown = None
+    for q in names:
+      if q not in table:
+        continue
+      d = inline.edit_size(mod.name, q, table[q][0])
+      if d is None:
+        unknown = q
+      else:
+        worst = max(worst, d)
+    if unknown is not None or worst > RESTRUCTURED:
+      o.status = 'restructured'
+      res.errors.append(
+          '%s rule=%s instance=%s: %s was restructured (%s) - the rule was '
+          'confirmed on another shape of this function and is not applied '
+          '(what it would have said: %s)' % (
+              o.loc, o.rule, o.key, unknown or names[0],
+              'not a reference function' if unknown else
+              '%d normal-form statements differ from the reference' % worst,
+              o.detail[:160]))
+
+
 def run_property(pid, tier, repo, replay_key=None, write_evidence=True,
                  quiet=False):
   try:
@@ -69,6 +149,7 @@ def run_property(pid, tier, repo, replay_key=None, write_evidence=True,
   res.explanation = mod.EXPLANATION
   res.assumptions = list(getattr(mod, 'ASSUMPTIONS', []))
   _run_isolated(mod, prog, res)
+  _restructure_gate(prog, res)
   if tier == 'thorough' and replay_key is None:
     # sensitivity audit: informational, never changes the verdict
     try:
